@@ -49,6 +49,9 @@ CLAIMED = {
  "C13": ("exploration",
    "Seeded interleavings of browse / re-browse / browse_cache / stop / resolve_hostname (timeouts, letter cases) / stop_resolve_hostname / shutdown placed at, just before and after retransmission times, against answering peers, observed for minutes to hours after each stop: per-channel protocol (SearchStarted first, Found before Resolved, SearchStopped once and last), no query for a stopped type or host on the wire, cache forgotten (cache-only browse right after a stop), replaced browse hands over.",
    "7.13", "A search counts as stopped from the end of the consuming step; refresh queries on behalf of a cache-only browse are a known finding."),
+ "C16": ("exploration",
+   "Two real daemons on one simulated link: A registers services whose property lists come from a seeded generator (0-30 entries; keys in mixed case, duplicated in the same and in another case, with spaces, punctuation, control characters, 200-254 bytes long, not ASCII, containing '='; values absent, empty, with '=' and NUL, arbitrary bytes, UTF-8, sized so that key=value is 254 / 255 / 256 bytes) through every input type (Vec<TxtProperty>, &[(K,V)], HashMap, Option<HashMap>, None); B browses, in strict and lossy-with-retransmission profiles. The oracle compares (R1) refusal at creation with representability, (R2) the TXT RDATA on the wire with an independent reference encoding, (R3) B's ServiceResolved with the registered list (keys, case, bytes, order, none vs empty, first occurrence), (R4) upper/lower-case look-ups at B. A second family has a scripted peer send arbitrary bytes as TXT RDATA (random, cut short, zero-length strings, non-UTF-8 keys, RDLENGTH 0 ...): the daemon survives and reports the reference decoding.",
+   "7.16", "The property quantifies over inputs; the simulation contributes the two-party pipeline (encode, packets, decode, events) and loss/retransmission. Slice and map input types cannot express 'no value' or raw bytes; the model follows the types."),
  "C17": ("exploration",
    "Seeded worlds with resolve_hostname in all letter-case classes and timeouts {none, 0, 1, 500, 1000, 2999, 3000, 3001, 10^6} against a (multi-homed) peer that spells the name in its own case and whose address set changes (added with/without cache-flush, goodbye, TTL 1..120 s), strict / latency / lossy profiles: every reported address justified by a live record learned on the tagged interface; new addresses reported in the accepting step; removals at the end of life (strict: that ms); cached addresses replayed at once; no query at or after the deadline.",
    "7.17", "Completeness and removal timing only for definitely-accepted deliveries in fault-free networks; soundness in all profiles."),
